@@ -20,3 +20,38 @@ fn native_exl_damaged_nopanic() {
     for s in ["", ",", "EXLT", "EXLT,", "EXLT,x", "a,99999999999999999999", "a,-1", "a,", ",1"] { native_try(&f, s.as_bytes(), "short text"); cases += 1; }
     println!("NATIVE native_exl_damaged_nopanic cases={cases}");
 }
+
+//@unit props=C08 label=B tier=quick native=1 fn=exl::EXL::{from_existing,write_to_buffer,contains} bound="by execution: lists with versions {0, 2, -1, i32::MAX, i32::MIN} x 0..5 entries (ids over {0, 1, -1, 209, i32::MAX, i32::MIN}, names with '/', spaces and non-ASCII text), with and without interleaved comment rows; resources/tests/test.exl"
+//@desc write renders EXLT,version then LF name,id per entry; parsing a written list returns the same version and entries in the same order; comment rows are skipped; writing a parsed canonical list reproduces it byte for byte; contains agrees with the entries
+#[test]
+fn native_exl_roundtrip() {
+    let mut cases = 0u64;
+    let names = ["Achievement", "opening/OpeningLimsaLominsa", "Foo Bar", "quest/000/ClsArc000_00021", "名前", "x"];
+    let ids = [0i32, 1, -1, 209, i32::MAX, i32::MIN];
+    let canon = native_resource("test.exl");
+    let pc = EXL::from_existing(&canon).expect("parses");
+    assert_eq!(pc.write_to_buffer().unwrap(), canon, "writing the parsed canonical list reproduces it byte for byte");
+    for version in [0i32, 2, -1, i32::MAX, i32::MIN] {
+        for n in 0..=5usize {
+            for shift in 0..3usize {
+                let entries: Vec<(String, i32)> = (0..n).map(|i| (names[(i + shift) % names.len()].to_string(), ids[(i * 2 + shift) % ids.len()])).collect();
+                let mut text = format!("EXLT,{version}");
+                for (k, v) in entries.iter() { text.push_str(&format!("\n{k},{v}")); }
+                let built = EXL { version, entries: entries.clone() };
+                assert_eq!(built.write_to_buffer().unwrap(), text.as_bytes(), "written text");
+                let p = EXL::from_existing(text.as_bytes()).expect("a written list parses");
+                assert_eq!((p.version, &p.entries), (version, &entries), "version and entries in the same order");
+                assert_eq!(p.write_to_buffer().unwrap(), text.as_bytes(), "write(parse(text)) == text");
+                for (k, _) in entries.iter() { assert!(p.contains(k), "contains({k:?})"); }
+                assert!(!p.contains("NoSuchSheet") && !p.contains("EXLT") && !p.contains("#comment"));
+                // the same list with comment rows and CRLF line ends parses to the same entries
+                let mut noisy = format!("EXLT,{version}\r\n#header comment,-1");
+                for (k, v) in entries.iter() { noisy.push_str(&format!("\r\n{k},{v}\r\n#{k},{v}")); }
+                let q = EXL::from_existing(noisy.as_bytes()).expect("parses");
+                assert_eq!((q.version, &q.entries), (version, &entries), "comment rows are skipped");
+                cases += 1;
+            }
+        }
+    }
+    println!("NATIVE native_exl_roundtrip cases={cases}");
+}
